@@ -18,7 +18,9 @@ LIB = {
     "pkg/__init__.py": "v = 'pkg.v'\n",
     "pkg/s.py": "f = 'pkg.s.f'\nx = 'pkg.s.x'\n",
     "pkg/t.py": "g = 'pkg.t.g'\ny = 'pkg.t.y'\n",
+    "pkg/la.py": "x = 'pkg.la.x'\nk2 = 'pkg.la.k2'\n",          # a sibling shadowing the top-level module la
     "pkg/sub/__init__.py": "",
+    "pkg/sub/s.py": "f = 'pkg.sub.s.f'\nk3 = 'pkg.sub.s.k3'\n",  # same module text as pkg/s.py one level up
     "pkg/sub/deep/__init__.py": "",
     "pkg/sub/deep/mod.py": "h = 'deep.mod.h'\n",
     "pkg/sub/deep/other.py": "k = 'deep.other.k'\n",
@@ -97,8 +99,22 @@ class World:
 WORLD = World()
 
 
+PLACES = {"top": (), "pkg": ("pkg",), "sub": ("pkg", "sub")}
+
+
 def package_of(place):
-    return ("pkg",) if place == "pkg" else ()
+    return PLACES[place]
+
+
+def relative_forms(place, mod):
+    """every way to write the absolute module `mod` in a from-import of the module under test:
+    (module text, level), the absolute form first"""
+    forms = [(tuple(mod), 0)]
+    pkg = package_of(place)
+    for k in range(1, len(pkg) + 1):
+        if tuple(mod[:k]) == pkg[:k] and len(mod) >= k:
+            forms.append((tuple(mod[k:]), len(pkg) - k + 1))
+    return forms
 
 
 def absolute(place, m, lvl):
@@ -335,8 +351,8 @@ NORMAL_POOL = [
     [(("pkg", "sub", "deep", "mod"), "dm")], [(("pkg", "sub", "deep"), None)], [(("pkg", "sub"), None)],
 ]
 FROM_MODS = [("la",), ("lb",), ("lc",), ("pkg",), ("pkg", "s"), ("pkg", "t"), ("ext1",), ("os",), ("os", "path"),
-             ("pkg", "sub", "deep"), ("pkg", "sub", "deep", "mod")]
-STAR_MODS = [("la",), ("lb",), ("pkg", "s"), ("pkg", "t"), ("ext1",), ("lc",)]
+             ("pkg", "sub", "deep"), ("pkg", "sub", "deep", "mod"), ("pkg", "la"), ("pkg", "sub", "s"), ("pkg", "sub")]
+STAR_MODS = [("la",), ("lb",), ("pkg", "s"), ("pkg", "t"), ("ext1",), ("pkg", "la"), ("pkg", "sub", "s"), ("lc",)]
 ALIASES = ["q", "x", "y", "s", "u"]
 
 
@@ -355,9 +371,10 @@ def gen_info(rng, place, cfg):
         return ("N", list(rng.choice(NORMAL_POOL)))
     if k < cfg["p_normal"] + cfg["p_star"]:
         mod = rng.choice(STAR_MODS if cfg["lc_star"] else STAR_MODS[:-1])
-        m, lvl = mod, 0
-        if place == "pkg" and mod[0] == "pkg" and len(mod) == 2 and rng.random() < 0.5:
-            m, lvl = mod[1:], 1
+        forms = relative_forms(place, mod)
+        m, lvl = rng.choice(forms) if rng.random() < 0.6 else forms[0]
+        if not m:
+            m, lvl = forms[0]
         return ("S", m, lvl)
     mod = rng.choice(FROM_MODS)
     names = importable_names(mod)
@@ -371,10 +388,21 @@ def gen_info(rng, place, cfg):
         if rng.random() < 0.04:
             alias = n
         pairs.append((n, alias))
-    m, lvl = mod, 0
-    if place == "pkg" and mod[0] == "pkg" and rng.random() < 0.5:
-        m, lvl = mod[1:], 1
+    forms = relative_forms(place, mod)
+    m, lvl = rng.choice(forms) if rng.random() < 0.6 else forms[0]
     return ("F", m, lvl, pairs)
+
+
+def twin_levels(place):
+    """groups of from-import forms with the same module text and different levels (different modules):
+    {text: [(level, absolute module), ...]}"""
+    groups = {}
+    for mod in FROM_MODS:
+        for text, lvl in relative_forms(place, mod):
+            groups.setdefault(text, [])
+            if (lvl, tuple(mod)) not in groups[text]:
+                groups[text].append((lvl, tuple(mod)))
+    return {t: g for t, g in groups.items() if len({l for l, _ in g}) > 1}
 
 
 def render_info(info, style=0):
@@ -382,6 +410,8 @@ def render_info(info, style=0):
         return n + (" as " + a if a else "")
     if info[0] == "N":
         sep = ", " if style != 1 else ","
+        if style == 4 and len(info[1]) > 1:
+            return "import " + ", \\\n    ".join(pa(".".join(d), a) for d, a in info[1])
         return "import " + sep.join(pa(".".join(d), a) for d, a in info[1])
     mod = "." * info[2] + ".".join(info[1])
     if info[0] == "S":
@@ -391,6 +421,8 @@ def render_info(info, style=0):
         return "from %s import (%s)" % (mod, ", ".join(items))
     if style == 3 and len(items) > 1:
         return "from %s import (\n    %s,\n)" % (mod, ",\n    ".join(items))
+    if style == 4:
+        return "from %s import \\\n    %s" % (mod, ", ".join(items))
     return "from %s import %s" % (mod, ", ".join(items))
 
 
@@ -438,6 +470,13 @@ def gen_module(rng, place, cfg=None):
     infos = [gen_info(rng, place, cfg) for _ in range(n)]
     if rng.random() < 0.25 and infos:                      # exact / near duplicates
         infos.insert(rng.randrange(len(infos) + 1), rng.choice(infos))
+    twins = twin_levels(place)
+    if twins and rng.random() < 0.2:                       # the same module text at two relative levels
+        text = rng.choice(sorted(twins))
+        for lvl, mod in rng.sample(twins[text], 2):
+            names = [n for n in importable_names(mod) if not n.startswith("_")]
+            if names:
+                infos.insert(rng.randrange(len(infos) + 1), ("F", text, lvl, [(rng.choice(names), None)]))
     future = None
     if rng.random() < 0.15:
         future = ("F", ("__future__",), 0, [(rng.choice(FUTURE), None)])
@@ -493,6 +532,18 @@ def gen_module(rng, place, cfg=None):
             uses.append("%s = %s\nprint(%s)" % (v, expr(name), v))
         else:
             uses.append("print(%s, %s)" % (expr(name), expr(name)))
+    # one object through two routes: the from-imported name next to the same attribute reached through a
+    # plainly imported module (import pkg / from pkg import v / v ... pkg.v)
+    for name in bound:
+        obj = res.env[name]
+        if obj[0] != "val" or len(obj[2]) != 1:
+            continue
+        for other in bound:
+            o2 = res.env[other]
+            if o2[0] == "mod" and obj[1][:len(o2[1])] == o2[1] and obj[1] in res.loaded and rng.random() < 0.5:
+                path = ".".join((other,) + obj[1][len(o2[1]):] + obj[2])
+                uses.append("print(%s, %s)" % (name, path))
+                break
     if exported or (cfg["all"] and rng.random() < 0.1):
         if fnames and rng.random() < 0.5:
             exported.append(fnames[0])
@@ -516,7 +567,7 @@ def gen_module(rng, place, cfg=None):
             out.append("")
         if odd and rng.random() < 0.05:
             out.append("%s = %d" % (fresh("w"), i))
-        style = rng.choice([0, 0, 0, 0, 1, 2, 3]) if odd else 0
+        style = rng.choice([0, 0, 0, 0, 1, 2, 3, 3, 4]) if odd else 0
         line = render_info(info, style)
         if odd and rng.random() < 0.06 and "\n" not in line:
             line += "  # noqa"
